@@ -137,6 +137,10 @@ pub fn run(name: &str, a: &[u64]) -> Vec<u64> {
         "sbd_hist" => crate::codec::sbd_hist(a),
         "intermediate" => crate::codec::intermediate(a),
         "plan_ops" => crate::codec::plan_ops(a),
+        "solve_ops" => crate::codec::solve_ops(a),
+        "bm_dense" => crate::bitmat::dense(a),
+        "bm_sparse" => crate::bitmat::sparse(a),
+        "plan_variants" => crate::codec::plan_variants(a),
         "k_add" => crate::kern::k_add(a),
         "k_mul" => crate::kern::k_mul(a),
         "k_fma" => crate::kern::k_fma(a),
